@@ -55,3 +55,14 @@ pub proof fn lemma_honest_nonzero(h: int, x: int)
     if fmul(h, x) == 0 { lemma_no_zero_div(h, x); }
     assert(fmul(1, x) == fmul(x, 1));
 }
+
+/// proof-of-knowledge acceptance equation in discrete-log form
+pub proof fn lemma_pok_eq_iff2(u: Sig, v: Sig, pk: Pk, y: Scalar, m: Seq<u8>, d: Seq<u8>)
+    ensures pok_eq(u, v, pk, y, m, d) <==> fadd(v.dl(), fmul(fadd(u.dl(), fmul(hp(m, d).dl(), y.val())), pk.dl())) == 0
+{
+    lemma_pair_sum_2((v, pk_of(1)), (sig_add(u, sig_mul(hp(m, d), y)), pk));
+    assert(pok_pairs(u, v, pk, y, m, d) =~= seq![(v, pk_of(1)), (sig_add(u, sig_mul(hp(m, d), y)), pk)]);
+    axiom_r_gt_1();
+    assert(pk_of(1).dl() == 1);
+    lemma_mul_one(v.dl());
+}
